@@ -13,6 +13,18 @@ CHECKS = {
    technique="TLA+ spec (ReplayDetector.tla StepExact) + TLC exhaustive MC + transition-tour replay and real-scale driver traces validated by TLC",
    text="Same traces as C04 validated against the exact acceptance rule (ok, accept's latest flag and purity of Check are functions of the spec state); the two distances nearest the half-space boundary are left open as the property says.",
    note="as C04"),
+ "C06": dict(engine="tlc-trace", design_ref="DESIGN.md §4 C06",
+   technique="TLA+ FIFO spec (PacketBuffer.tla) + TLC exhaustive MC + transition tours, ring-geometry steering and limit drivers on the real Buffer; traces validated by TLC (Judge=fifo)",
+   text="TLC checks Conservation (reads ++ queue = accepted writes) on PacketBuffer.tla; every transition of the small graph is replayed on the real packetio.Buffer; seeded drivers steer head/tail to every offset around the ring end for each growth size, force growth with split data, use destination slices shorter/longer than the packet and overwrite the writer's slice; every recorded operation (result, length, leading bytes, payload self-consistency) is validated by TLC against the FIFO spec.",
+   note="payload tail bytes are checked by the harness as a function of the leading 4 bytes (TLC sees id/length/result); sequential histories — concurrency is C08; exhaustive only at the MC constants"),
+ "C07": dict(engine="tlc-trace", design_ref="DESIGN.md §4 C07",
+   technique="TLA+ spec of limits/occupancy (PacketBuffer.tla) + TLC MC + limit-approach driver traces validated by TLC (Judge=limits)",
+   text="Same traces as C06, judged for the refusal rule and for Count()/Size() logged after every operation: full iff count limit reached or size+2+len exceeds the size limit (4 MiB cap without limit; the single value size+2+len = 4 MiB is left open), refusal changes nothing, limits changed at arbitrary points.",
+   note="as C06; the 4 MiB approach runs in the thorough tier only"),
+ "C09": dict(engine="tlc-trace", design_ref="DESIGN.md §4 C09",
+   technique="TLA+ spec with explicit runtime dispatch/run steps (Deadline.tla) + TLC MC + tour replay with a fake runtime timer in virtual time; traces validated by TLC",
+   text="TLC checks NeverEarly / FiresWhenDue on Deadline.tla for all Set/advance/dispatch/run orders with up to 3 outstanding callbacks; every transition is replayed on the real Deadline inside synctest bubbles with a harness timer in the unexported timer field (dispatch and callback execution are explicit steps, so stale callbacks racing Set are enumerated), plus public-API histories with real timers; Done/Err/Deadline/channel identity after every step are validated by TLC.",
+   note="virtual time from testing/synctest (go1.26.8, asynctimerchan=0); fake-timer binding names unexported identifiers, falls back to public API if they disappear"),
 }
 
 def main():
